@@ -226,7 +226,7 @@ package annotations
 //@ axiom ann_matcher_built: matcher != nil
 
 //@ func ReadAllAnnotations
-//@   props C15 C09 C14 C06 C10
+//@   props C15 C09 C14 C06 C17 C10
 //@   merge
 //@   requires cfg != nil && pass.Pkg != nil && pass.TypesInfo != nil
 //@   assigns nothing
